@@ -71,6 +71,13 @@ type replayFile struct {
 	OrigLen   int      `json:"original_tape_length,omitempty"`
 	Faults    []string `json:"faults_fired,omitempty"`
 	Race      bool     `json:"race,omitempty"`
+	// HistoryStart/HistoryCount: the violation needs state accumulated in the
+	// process by the preceding runs (e.g. a process-wide cache in the code
+	// under test): the replay is runs [HistoryStart, HistoryStart+HistoryCount)
+	// of this property and seed executed in one fresh process, the last of
+	// which is Run.
+	HistoryStart int `json:"history_start,omitempty"`
+	HistoryCount int `json:"history_count,omitempty"`
 }
 
 type knownHit struct {
@@ -545,6 +552,21 @@ func check(id, tier string) int {
 	} else if agg.violation != nil {
 		path, ok := minimiseAndConfirm(bin, dir, agg.violation, knownPath, p.NoMinimise, workerEnv)
 		if !ok {
+			// The run alone does not fail.  Before calling that a harness
+			// problem, see whether it fails again when the runs that preceded
+			// it in the same worker process are executed first: a violation
+			// that needs process-wide state of the code under test.
+			per := (total + nproc - 1) / nproc
+			if hv := historyConfirm(bin, dir, id, tier, seed, agg.violation, (agg.violation.Run/per)*per, knownPath, workerEnv); hv != nil {
+				os.MkdirAll(filepath.Join(verifDir, "replays"), 0o755)
+				path = filepath.Join(verifDir, "replays", fmt.Sprintf("%s-%d-%d-history.json", id, seed, hv.Run))
+				b, _ := json.MarshalIndent(hv, "", " ")
+				os.WriteFile(path, b, 0o644)
+				agg.violation = hv
+				ok = true
+			}
+		}
+		if !ok {
 			os.RemoveAll(dir)
 			fmt.Fprintf(os.Stderr, "verif: violation %s in run %d did not reproduce from its tape in a fresh process: harness determinism bug, no verdict\n", agg.violation.Signature, agg.violation.Run)
 			os.Exit(2)
@@ -719,6 +741,23 @@ func replay(path string) int {
 	if err != nil {
 		fatal2("build failed:\n%v", err)
 	}
+	if rf.HistoryCount > 1 {
+		knownPath := filepath.Join(dir, "known.json")
+		os.WriteFile(knownPath, []byte("[]"), 0o644)
+		var env []string
+		if p.Instrumented {
+			env = []string{"GOMAXPROCS=1"}
+		}
+		v := runHistory(bin, dir, rf.Property, rf.Tier, rf.Seed, rf.HistoryStart, rf.HistoryCount, knownPath, env)
+		fmt.Printf("replay of %s: runs %d..%d of property %s, seed %d, in one process\n", path, rf.HistoryStart, rf.HistoryStart+rf.HistoryCount-1, rf.Property, rf.Seed)
+		if v != nil && v.Run == rf.Run && v.Signature == rf.Signature {
+			fmt.Printf("  violation in run %d: %s\n  %s\nREPRODUCED\n", v.Run, v.Signature, strings.ReplaceAll(v.Detail, "\n", "\n  "))
+			fmt.Printf("VIOLATION property=%s replay=%s\n", rf.Property, path)
+			return 1
+		}
+		fmt.Println("NOT-REPRODUCED")
+		return 0
+	}
 	if len(rf.Tape) == 0 {
 		fmt.Printf("replay file carries no tape: %s\n", rf.Detail)
 		return 2
@@ -743,4 +782,47 @@ func replay(path string) int {
 		return 2
 	}
 	return 0
+}
+
+// runHistory executes runs [start, start+count) in one fresh worker process
+// and returns the violation it stopped at (nil if none).
+func runHistory(bin, dir, id, tier string, seed uint64, start, count int, knownPath string, env []string) *replayFile {
+	out := filepath.Join(dir, fmt.Sprintf("history-%d-%d.json", start, count))
+	cmd := exec.Command(bin, "run", "-prop", id, "-tier", tier, "-seed", strconv.FormatUint(seed, 10),
+		"-start", strconv.Itoa(start), "-count", strconv.Itoa(count), "-known", knownPath, "-out", out)
+	cmd.Env = append(os.Environ(), env...)
+	if err := cmd.Run(); err != nil {
+		return nil
+	}
+	b, err := os.ReadFile(out)
+	if err != nil {
+		return nil
+	}
+	var wr workerResult
+	if json.Unmarshal(b, &wr) != nil {
+		return nil
+	}
+	return wr.Violation
+}
+
+// historyConfirm looks for the shortest run history ending in v.Run that
+// reproduces v in a fresh process.
+func historyConfirm(bin, dir, id, tier string, seed uint64, v *replayFile, batchStart int, knownPath string, env []string) *replayFile {
+	same := func(x *replayFile) bool { return x != nil && x.Run == v.Run && x.Signature == v.Signature }
+	full := v.Run - batchStart + 1
+	if full <= 1 || !same(runHistory(bin, dir, id, tier, seed, batchStart, full, knownPath, env)) {
+		return nil
+	}
+	best := full
+	for k := 2; k < full; k *= 2 {
+		if same(runHistory(bin, dir, id, tier, seed, v.Run-k+1, k, knownPath, env)) {
+			best = k
+			break
+		}
+	}
+	hv := *v
+	hv.HistoryStart, hv.HistoryCount = v.Run-best+1, best
+	hv.Minimised = false
+	hv.Detail = fmt.Sprintf("needs process history: run %d alone passes, but fails when runs %d..%d (same property, seed %d) are executed before it in the same process - state kept by the code under test across calls\n", v.Run, hv.HistoryStart, v.Run-1, seed) + v.Detail
+	return &hv
 }
